@@ -189,29 +189,27 @@ Definition nonevm_ante (c : cfg) (w : world) (s : st) (x : tx) : option st :=
     Some (if seq_on c then set_seq s1 (t_signer x) (S (seq_of s1 (t_signer x))) else s1)
   else None.
 
-(** the EVM ante chain: each decorator loops over all messages before the next one runs *)
+(** the EVM ante chain.  In the code each decorator loops over all messages before the next decorator
+    runs; EthGasConsume touches balances only and EthIncrementSenderSequence sequences only, so the two
+    loops are folded into one pass per message here (same failures, same final state) *)
 Definition eth_parts (t : msg) : option (addr * nat * Z * Z * Z) :=
   match t with Leaf (EthTx a n g p v) => Some (a, n, g, p, v) | _ => None end.
 
-Fixpoint evm_gas_consume (ms : list msg) (s : st) : option st :=
-  match ms with
-  | [] => Some s
-  | m :: r =>
-      match eth_parts m with
-      | Some (a, _, g, p, _) =>
-          if bal_of s a <? g * p then None
-          else evm_gas_consume r (add_fee (add_bal s a (- (g * p))) (g * p))
-      | None => None
-      end
+Definition evm_admit_one (c : cfg) (s : st) (a : addr) (n : nat) (g p : Z) : option st :=
+  match (if e_gas c then if bal_of s a <? g * p then None else Some (add_fee (add_bal s a (- (g * p))) (g * p))
+         else Some s) with
+  | None => None
+  | Some s1 => if e_seq c then if Nat.eqb n (seq_of s1 a) then Some (set_seq s1 a (S n)) else None
+               else Some s1
   end.
 
-Fixpoint evm_incr_seq (ms : list msg) (s : st) : option st :=
+Fixpoint evm_admit (c : cfg) (ms : list msg) (s : st) : option st :=
   match ms with
   | [] => Some s
   | m :: r =>
       match eth_parts m with
-      | Some (a, n, _, _, _) =>
-          if Nat.eqb n (seq_of s a) then evm_incr_seq r (set_seq s a (S n)) else None
+      | Some (a, n, g, p, _) =>
+          match evm_admit_one c s a n g p with Some s1 => evm_admit c r s1 | None => None end
       | None => None
       end
   end.
@@ -224,11 +222,7 @@ Definition evm_ante (c : cfg) (w : world) (s : st) (x : tx) : option st :=
      && (if e_acc c then forallb (fun m => match eth_parts m with
                                           | Some (a, _, g, p, v) => g * p + v <=? bal_of s a
                                           | None => true end) (t_msgs x) else true)
-  then
-    match (if e_gas c then evm_gas_consume (t_msgs x) s else Some s) with
-    | Some s1 => if e_seq c then evm_incr_seq (t_msgs x) s1 else Some s1
-    | None => None
-    end
+  then evm_admit c (t_msgs x) s   (* every later decorator also rejects a message that is not a MsgEthereumTx *)
   else None.
 
 (** one DeliverTx: new state and "accepted?".  The ante handler's writes are kept when it succeeds even if
